@@ -451,6 +451,59 @@ def F34():
     if worst:
         return "; ".join(worst[:4]) + (f" (+{len(worst) - 4} more)" if len(worst) > 4 else "")
 
+def F35():
+    """e.extend(e) iterates over the emulsion while appending to it and never terminates (a list doubles)"""
+    from droplets import SphericalDroplet, Emulsion
+
+    class Guarded(Emulsion):
+        calls = 0
+
+        def append(self, droplet, **kw):
+            Guarded.calls += 1
+            if Guarded.calls > 50:
+                raise OverflowError
+            super().append(droplet, **kw)
+    e = Guarded([SphericalDroplet([0, 0], 1), SphericalDroplet([3, 0], 1)])
+    Guarded.calls = 0
+    try:
+        e.extend(e)
+    except OverflowError:
+        return f"e.extend(e) does not terminate (len(e) = {len(e)} after 50 appends)"
+    if len(e) != 4:
+        return f"e.extend(e) left {len(e)} droplets, a list holds 4"
+
+
+def F36():
+    """'extrema' / 'auto' threshold on narrow integer images: min + max is added in the image dtype and wraps"""
+    import warnings
+    import numpy as np
+    from pde import CartesianGrid, ScalarField
+    from droplets.image_analysis import locate_droplets
+    g = CartesianGrid([(0, 6)], [6])
+    d = np.array([10, 250, 250, 10, 10, 10], np.uint8)
+    with warnings.catch_warnings():
+        warnings.simplefilter("ignore")
+        a = [x.radius for x in locate_droplets(ScalarField(g, d, dtype=np.uint8), threshold="extrema")]
+        b = [x.radius for x in locate_droplets(ScalarField(g, d.astype(float)), threshold="extrema")]
+    if a != b:
+        return f"uint8 image with values 10 / 250, threshold 'extrema': radii {a}; the same values as float64: {b}"
+
+
+def F37():
+    """nearest-neighbour distances of an emulsion that mixes droplet classes (accepted by the constructor and by every
+    other distance query) raise TypeError"""
+    import numpy as np
+    from droplets import SphericalDroplet, DiffuseDroplet, Emulsion
+    em = Emulsion([SphericalDroplet([0.0, 0.0], 1), DiffuseDroplet([0.5, 0.0], 1, 0.1), SphericalDroplet([5.0, 0.0], 1)])
+    em.get_pairwise_distances()
+    try:
+        nd = em.get_neighbor_distances()
+        ns = em.get_neighbor_distances(subtract_radius=True)
+    except TypeError as e:
+        return f"get_neighbor_distances raises on an emulsion that mixes droplet classes: TypeError {e}"
+    if not (np.allclose(nd, [0.5, 0.5, 4.5]) and np.allclose(ns, [-1.5, -1.5, 2.5])):
+        return f"nearest-neighbour distances {nd} / {ns} are not the row minima"
+
 
 ALL = {k: v for k, v in globals().items() if k[0] == "F" and callable(v)}
 
